@@ -610,6 +610,77 @@ fn stmt_context_case(rng: &mut Rng) -> (&'static str, &'static str, String, Stri
     (tool, game, src, format!("{} {}", tool, body.replace('\n', " ").chars().take(60).collect::<String>()))
 }
 
+fn script_wrap(tool: &str, game: &str, body: &str) -> String {
+    match tool {
+        "truanm" => format!("{}script s {{\n{}}}\n", anm_head(), body),
+        "trustd" => format!("meta {{ unknown: 0, anm_path: \"a.anm\", stage_name: \"s\", bgm: [{{path: \" \", name: \" \"}}, {{path: \" \", name: \" \"}}, {{path: \" \", name: \" \"}}, {{path: \" \", name: \" \"}}], objects: {{}}, instances: [] }}\nscript main {{\n{}}}\n", body),
+        "trumsg" => format!("meta {{ table: {{ 0: {{script: \"main\", flags: 256}} }} }}\nscript main {{\n{}}}\n", body),
+        _ if game == "10" || game == "13" => format!("meta {{ ecli: [], anim: [] }}\nvoid main() {{\n{}}}\n", body),
+        _ => format!("script timeline0 {{}}\nvoid sub0() {{\n{}}}\n", body),
+    }
+}
+
+/// string-typed arguments: every size/mask/furibug attribute combination, strings around the buffer sizes, furigana
+/// separators, non-ASCII text, several string instructions in a row (state carried from one string to the next)
+fn string_arg_case(rng: &mut Rng) -> (&'static str, &'static str, String, String, String) {
+    let (tool, game) = *rng.pick(&[("trumsg", "12"), ("trumsg", "12"), ("trumsg", "6"), ("trumsg", "17"), ("trumsg", "9"), ("truanm", "12"), ("truecl", "6"), ("truecl", "10"), ("trustd", "12")]);
+    let sigs = ["z(len=8)", "z(len=8;furibug)", "z(bs=4)", "z(bs=4;furibug)", "m(bs=4;mask=0x77,7,16)", "m(bs=4;mask=0x77,7,16;furibug)", "m(len=16;mask=0x77,7,16;furibug)", "z(len=8;nulless)", "z(len=4;nulless;furibug)",
+                "p(bs=4)", "P(bs=4)", "Sz(bs=4)", "z(len=4)z(len=4)", "z(bs=1)", "m(len=1;mask=0,0,0)", "z(len=0)", "z(len=8)S", "m(bs=4;mask=255,255,255)"];
+    let strs = ["", "a", "|ab", "abcdefg", "abcdefgh", "abcdefghi", "a|b|c", "|", "||", "|abcdefgh", "\\0", "a\\0b", "\u{3042}\u{3044}\u{3046}", "|\u{3042}", "ab|cdefghij", "\\n", "x|", "\u{e9}"];
+    let n = 1 + rng.below(3) as usize;
+    let mut map = format!("{}\n!ins_names\n", map_magic(tool));
+    for k in 0..n { map.push_str(&format!("{} str{}\n", 200 + k, k)); }
+    map.push_str("!ins_signatures\n");
+    let mut arities = vec![];
+    for k in 0..n { let sg = *rng.pick(&sigs); map.push_str(&format!("{} {}\n", 200 + k, sg)); arities.push(sg.to_string()); }
+    let mut body = String::new();
+    for _ in 0..(1 + rng.below(4)) {
+        let k = rng.below(n as u64) as usize;
+        let args = arities[k].split(')').flat_map(|part| { let head = part.split('(').next().unwrap_or(""); head.chars().filter(|c| c.is_ascii_alphabetic()).collect::<Vec<_>>() })
+            .map(|c| if c == 'S' { "1".to_string() } else { format!("\"{}\"", *rng.pick(&strs)) }).collect::<Vec<_>>().join(", ");
+        body.push_str(&format!("    {}({});\n", if rng.chance(1, 2) { format!("str{}", k) } else { format!("ins_{}", 200 + k) }, args));
+    }
+    let pragma = rng.chance(1, 2);
+    let head = if pragma { format!("#pragma mapfile \"m.{}\"\n", map_ext(tool)) } else { String::new() };
+    (tool, game, head + &script_wrap(tool, game, &body), map, format!("{} {}", arities.join(" "), body.replace('\n', " ").chars().take(50).collect::<String>()))
+}
+
+/// `!gamemap` files: entries that name the gamemap itself, each other, nothing, a directory, a real mapfile
+fn gamemap_case(rng: &mut Rng) -> (&'static str, &'static str, String, String, String) {
+    let (tool, game) = *rng.pick(&[("truecl", "7"), ("truecl", "6"), ("truanm", "12"), ("trustd", "8"), ("trumsg", "12"), ("truecl", "10")]);
+    let me = format!("m.{}", map_ext(tool));
+    let real = format!("{}/map/any.{}", repo_root(), map_ext(tool));
+    let mut map = String::from(if rng.chance(1, 8) { map_magic(tool) } else { "!gamemap" }); map.push('\n');
+    map.push_str("!game_files\n");
+    let targets = [me.as_str(), me.as_str(), "./m.eclm", "nonexistent.map", "", ".", "..", real.as_str(), "/dev/null", "in.spec", "/"];
+    let g: i32 = game.parse().unwrap_or(12);
+    map.push_str(&format!("{} {}\n", g, *rng.pick(&targets)));
+    for _ in 0..rng.below(3) { map.push_str(&format!("{} {}\n", *rng.pick(&["6", "7", "8", "12", "95", "128", "0", "-1", "99999"]), *rng.pick(&targets))); }
+    if rng.chance(1, 4) { map.push_str("!ins_names\n1 foo\n"); }
+    let pragma = rng.chance(1, 2);
+    let head = if pragma { format!("#pragma mapfile \"{}\"\n", me) } else { String::new() };
+    (tool, game, head + &script_wrap(tool, game, "    ins_1();\n"), map.clone(), format!("gamemap {}", map.replace('\n', " ").chars().take(70).collect::<String>()))
+}
+
+/// pseudo-arguments: `@blob="..."` with every kind of content (spacing, odd length, non-hex, non-ASCII at each position), @mask, @arg0 ...
+fn blob_case(rng: &mut Rng) -> (&'static str, &'static str, String, String) {
+    let (tool, game) = *rng.pick(&[("truanm", "12"), ("truanm", "6"), ("truecl", "6"), ("truecl", "10"), ("trustd", "12"), ("trumsg", "6")]);
+    let base = *rng.pick(&["00000000", "00000000 0000803f", "0", "000", "", "zz", "0g", "00 00 00 00", " 00", "00 ", "0 0", "ffffffffffffffffffffffffffffffffffffffff", "0x00", "-1", "00\\n00"]);
+    let mut blob: Vec<char> = base.chars().collect();
+    if rng.chance(1, 2) {
+        let k = rng.below(blob.len() as u64 + 1) as usize;
+        blob.insert(k, *rng.pick(&['\u{e9}', '\u{3042}', '\u{1F600}', '\u{ff10}', '\u{0660}', '\u{a0}', '\u{200b}', 'é']));
+    }
+    let blob: String = blob.into_iter().collect();
+    let pseudo = match rng.below(8) {
+        0 => format!("@mask=1, @blob=\"{}\"", blob), 1 => format!("@blob=\"{}\", @mask=0", blob), 2 => format!("@arg0=3, @blob=\"{}\"", blob),
+        3 => format!("@blob=\"{}\", 1", blob), 4 => format!("@blob=\"{}\", @blob=\"{}\"", blob, blob), 5 => format!("@nargs=2, @pop=1, @blob=\"{}\"", blob), 6 => format!("@blob={}", blob.len()),
+        _ => format!("@blob=\"{}\"", blob),
+    };
+    let body = format!("    ins_{}({});\n", *rng.pick(&["9999", "1", "0", "65535"]), pseudo);
+    (tool, game, script_wrap(tool, game, &body), format!("{} {}", tool, body.trim()))
+}
+
 /// difficulty switches: lengths that differ between nesting levels, more cases than a mask has bits, empty cases
 fn diff_switch(rng: &mut Rng, depth: u32, float: bool) -> String {
     let n = *rng.pick(&[1usize, 2, 3, 4, 4, 4, 4, 5, 6, 8, 9, 33, 40, 70]);
@@ -667,8 +738,17 @@ fn generate(seeds: &[Seed], budget: usize, tier: &str, rng: &mut Rng) -> Vec<Inp
     let configs: [(&str, &str, &[&str]); 12] = [("truanm", "6", &[]), ("truanm", "12", &[]), ("truanm", "17", &[]), ("trustd", "6", &[]), ("trustd", "8", &[]), ("trustd", "12", &[]),
         ("trumsg", "6", &[]), ("trumsg", "12", &[]), ("trumsg", "10", &["--ending"]), ("trumsg", "095", &["--mission"]), ("truecl", "6", &[]), ("truecl", "10", &[])];
     while out.len() < budget {
-        let c = g.below(160);
-        if c >= 153 {
+        let c = g.below(181);
+        if c >= 174 {
+            let (tool, game, src, desc) = blob_case(&mut g);
+            out.push(Input { tool: tool.into(), game: game.into(), flags: vec![], kind: "blob", desc, source: src.into_bytes(), mapfile: None });
+        } else if c >= 167 {
+            let (tool, game, src, map, desc) = gamemap_case(&mut g);
+            out.push(Input { tool: tool.into(), game: game.into(), flags: vec![], kind: "gamemap", desc, source: src.into_bytes(), mapfile: Some(map.into_bytes()) });
+        } else if c >= 160 {
+            let (tool, game, src, map, desc) = string_arg_case(&mut g);
+            out.push(Input { tool: tool.into(), game: game.into(), flags: vec![], kind: "string-arg", desc, source: src.into_bytes(), mapfile: Some(map.into_bytes()) });
+        } else if c >= 153 {
             let (tool, game, src, desc) = stmt_context_case(&mut g);
             out.push(Input { tool: tool.into(), game: game.into(), flags: vec![], kind: "stmt-context", desc, source: src.into_bytes(), mapfile: None });
         } else if c >= 146 {
